@@ -1,5 +1,5 @@
 (** Executable entry point for the correspondence: the records the model predicts for one call. *)
-From Snoopy Require Import Lib.CStr Output.Model.
+From Snoopy Require Import Lib.CStr Output.Model Output.Errors.
 Local Open Scope N_scope.
 
 Definition kind_of_N (n : N) : okind :=
@@ -13,3 +13,11 @@ Definition predict (c : output_consts) (k : N) (arg path ident : list byte) (pri
 
 Definition sink_tag (s : sinkid) : N := match s with SkFile _ => 0 | SkFd _ => 1 | SkDgram _ => 2 end.
 Definition sink_name (s : sinkid) : list byte := match s with SkFile p => p | SkFd n => dec n | SkDgram p => p end.
+
+(** with the error-logging switch: [n_msg] / [n_path] / [n_ident] = refusals while formatting the message / the path template /
+    the ident template (Expand.Errors.generate_errors); the output's own template matters for the file and devlog outputs only *)
+Definition predict_el (c : output_consts) (k : N) (arg path ident : list byte) (prio pid : N) (el fe drop : bool)
+           (n_msg n_path n_ident : nat) (err msg : list byte) : list record :=
+  let kd := kind_of_N k in
+  let n_out := match kd with OFile => n_path | ODevlog => n_ident | _ => O end in
+  action_el c {| e_path_of := fun _ => path; e_ident := ident; e_prio := prio; e_pid := pid |} el fe drop kd arg n_msg n_out err msg.
